@@ -395,7 +395,9 @@ class BaseSubscription:
                 matched.add(event.created_at < query.until)
             if query.tags:
                 for tagname, values in query.tags:
-                    matched.add(all(event.has_tag(tagname, values)))
+                    # has_tag returns the matching value, which may be ""
+                    has_tag, match = event.has_tag(tagname, values)
+                    matched.add(match is not None)
             if matched and all(matched):
                 return True
         return False
